@@ -81,49 +81,4 @@ Theorem sd_adj_linear k e s n : (sd_minsize k e <= n)%nat -> LinearOn F n (sd_ad
 Proof. intros H. apply (adjpair_linear_r F n n (sd_fwd F k e s)).
   - intros x y Hx Hy. apply sd_adjoint; lia. - intros; rewrite sd_adj_length; lia. Qed.
 
-(* ---------------- model = documented stencil, row by row ---------------- *)
-Lemma fd_forward_spec o e s x i : (i < length x)%nat ->
-  nth i (fd_mv_forward F s x) 0 = fd_spec F Forward o e s (length x) i x.
-Proof. intros Hi. unfold fd_mv_forward, fd_spec. unf. setn1 x n Hx. destruct n as [|m]; [lia|].
-  rewrite put_zeros by len. nths (S m). lens. split_ifs; fin. Qed.
-Lemma fd_backward_spec o e s x i : (i < length x)%nat ->
-  nth i (fd_mv_backward F s x) 0 = fd_spec F Backward o e s (length x) i x.
-Proof. intros Hi. unfold fd_mv_backward, fd_spec. unf. setn1 x n Hx. destruct n as [|m]; [lia|].
-  rewrite put_zeros by len. nths (S m). lens. split_ifs; fin. Qed.
-Lemma fd_c3_spec (e : bool) s x i : (i < length x)%nat -> ((if e then 2 else 0) <= length x)%nat ->
-  nth i (fd_mv_c3 F e s x) 0 = fd_spec F Centered false e s (length x) i x.
-Proof. intros Hi Hn. unfold fd_mv_c3, fd_spec. unf. setn1 x n Hx.
-  destruct n as [|[|m]]; [destruct e; [lia|smallspec x i] .. |].
-  rewrite put_zeros by len. destruct e; nths (S (S m)); lens; split_ifs; fin. Qed.
-Lemma fd_c5_spec (e : bool) s x i : (i < length x)%nat -> ((if e then 4 else 0) <= length x)%nat ->
-  nth i (fd_mv_c5 F e s x) 0 = fd_spec F Centered true e s (length x) i x.
-Proof. intros Hi Hn. unfold fd_mv_c5, fd_spec. unf. setn1 x n Hx.
-  destruct n as [|[|[|[|m]]]]; [destruct e; [lia|smallspec x i] .. |].
-  rewrite put_zeros by len. destruct e; nths (S (S (S (S m)))); lens; split_ifs; fin. Qed.
-Theorem fd_meets_spec k o e s x i : (i < length x)%nat -> (fd_minsize k o e <= length x)%nat ->
-  nth i (fd_fwd F k o e s x) 0 = fd_spec F k o e s (length x) i x.
-Proof. destruct k; cbn [fd_fwd fd_minsize]; intros.
-  - apply fd_forward_spec; auto.
-  - destruct o; [apply fd_c5_spec | apply fd_c3_spec]; auto; destruct e; lia.
-  - apply fd_backward_spec; auto. Qed.
-
-Lemma sd_forward_spec e s x i : (i < length x)%nat ->
-  nth i (sd_mv_forward F s x) 0 = sd_spec F Forward e s (length x) i x.
-Proof. intros Hi. unfold sd_mv_forward, sd_core, sd_spec. unf. setn1 x n Hx.
-  destruct n as [|[|m]]; [smallspec x i .. |].
-  rewrite put_zeros by len. nths (S (S m)). lens. split_ifs; fin. Qed.
-Lemma sd_backward_spec e s x i : (i < length x)%nat ->
-  nth i (sd_mv_backward F s x) 0 = sd_spec F Backward e s (length x) i x.
-Proof. intros Hi. unfold sd_mv_backward, sd_core, sd_spec. unf. setn1 x n Hx.
-  destruct n as [|[|m]]; [smallspec x i .. |].
-  rewrite put_zeros by len. nths (S (S m)). lens. split_ifs; fin. Qed.
-Lemma sd_centered_spec (e : bool) s x i : (i < length x)%nat -> ((if e then 3 else 0) <= length x)%nat ->
-  nth i (sd_mv_centered F e s x) 0 = sd_spec F Centered e s (length x) i x.
-Proof. intros Hi Hn. unfold sd_mv_centered, sd_core, sd_spec. unf. setn1 x n Hx.
-  destruct n as [|[|[|m]]]; [destruct e; [lia|smallspec x i] .. |].
-  rewrite put_zeros by len. destruct e; nths (S (S (S m))); lens; split_ifs; fin. Qed.
-Theorem sd_meets_spec k e s x i : (i < length x)%nat -> (sd_minsize k e <= length x)%nat ->
-  nth i (sd_fwd F k e s x) 0 = sd_spec F k e s (length x) i x.
-Proof. destruct k; cbn [sd_fwd sd_minsize]; intros.
-  - apply sd_forward_spec; auto. - apply sd_centered_spec; auto. - apply sd_backward_spec; auto. Qed.
 End DerivSpec.
